@@ -5,6 +5,7 @@ model to *judge* anything: the compiler turns the AST into ordinary user-level D
 projection reads values through the public API.
 """
 import enum
+import re
 import vsc
 
 M = lambda w: (1 << w) - 1
@@ -109,7 +110,9 @@ def flatten(world):
                                   "enum": [], "top": top, "init": bits(f.get("init", 0), f["w"])}
 
     def add_obj(path, cls, parent, declrand, top):
-        W["objs"][path] = {"cls": cls, "parent": parent, "declrand": declrand, "top": top}
+        mi = re.search(r"\[(\d+)\]$", path)
+        # idx: position of a list element in the population of its object list (-1: not a list element)
+        W["objs"][path] = {"cls": cls, "parent": parent, "declrand": declrand, "top": top, "idx": int(mi.group(1)) if mi else -1}
         for f in class_fields(world, cls):
             p = path + "." + f["name"]
             k = f["kind"]
@@ -118,7 +121,7 @@ def flatten(world):
             elif k == "obj":
                 add_obj(p, f["cls"], path, f["rand"], top)
             elif k == "objlist":
-                W["lists"][p] = {"w": 1, "s": False, "owner": path, "declrand": f["rand"], "randsz": False,
+                W["lists"][p] = {"w": 1, "s": False, "owner": path, "declrand": f["rand"], "randsz": bool(f.get("randsz")),
                                  "cap": f["n"], "isobj": True, "cls": f["cls"], "top": top, "init": [],
                                  "n": f["n"]}
                 for i in range(f["n"]):
@@ -356,7 +359,8 @@ def build_classes(world, hooks=None):
             return vsc.rand_attr(o) if f["rand"] else vsc.attr(o)
         if k == "objlist":
             proto = built[f["cls"]]()
-            l = (vsc.rand_list_t if f["rand"] else vsc.list_t)(proto)
+            # a random-size object list is populated by the user; the solver chooses how many of the elements are exposed
+            l = vsc.randsz_list_t(proto) if f.get("randsz") else (vsc.rand_list_t if f["rand"] else vsc.list_t)(proto)
             for _ in range(f["n"]):
                 e = built[f["cls"]]()
                 l.append(vsc.rand_attr(e) if f["rand"] else vsc.attr(e))
